@@ -547,6 +547,10 @@ func run(c *mc.Ctx) {
 		f()
 	}
 
+	// family SUB (sub-flow return): a parent's router routed when its child run ends, whatever resume
+	// started the sprint
+	runSubflowFamily(c, unit)
+
 	// family T (tests product): every case list up to the length bound over the alphabet, with and
 	// without default, every operand, both contact languages where a case is localized; plain
 	// structure (one category and exit per case, result name set, no wait).
@@ -648,6 +652,9 @@ func run(c *mc.Ctx) {
 // ---- replay and registration --------------------------------------------------------------------
 
 func replayFn(c *mc.Ctx, raw json.RawMessage) (string, bool) {
+	if out, violated, mine := replaySubflow(c, raw); mine {
+		return out, violated
+	}
 	var r Router
 	if err := json.Unmarshal(raw, &r); err != nil {
 		return "bad replay: " + err.Error(), false
